@@ -68,7 +68,7 @@ class CoordOf(AbstractValue):
         return CoordClass()
 
     def v_compare(self, op, other, it):
-        if isinstance(other, int) and other == 0 and op in ("==", "!="):
+        if ((isinstance(other, int) and other == 0) or (isinstance(other, CoordConst) and other.which == "zero")) and op in ("==", "!="):
             t = Term("coord_is_zero", (id(self.pt), self.idx), "bool")
             return t if op == "==" else Term("not", (t,), "bool")
         return NotImplemented
@@ -82,6 +82,11 @@ class CoordConst(AbstractValue):
 
     def __init__(self, which):
         self.which = which
+
+
+def is_symv(v):
+    from .term import is_sym
+    return is_sym(v)
 
 
 def classify_point(v):
@@ -142,7 +147,8 @@ def parity_of_facts(facts, n):
     return None
 
 
-def check_multiply_schema(world, f, order=None, self_names=(), double_q=None, add_q=None, summaries=None, neg_ok=False):
+def check_multiply_schema(world, f, order=None, self_names=(), double_q=None, add_q=None, summaries=None, neg_ok=False,
+                          adder_check=None):
     """f(pt, n): every path returns n·pt (order None) resp. (n mod order)·pt
     under the induction hypothesis for the recursive calls.
     Returns list of (key, ok, detail)."""
@@ -173,17 +179,47 @@ def check_multiply_schema(world, f, order=None, self_names=(), double_q=None, ad
         if a is None or b is None:
             raise AnalysisError(f"{it.where(node)}: add of a non-group value")
         return a.plus(b)
+    adders = {}
+
+    def s_other(it, fr, args, kwargs, node):
+        """a function other than the module's add/double that the ladder applies to two points: it stands for point addition
+        in the schema, and is held to the complete group law (every stratum: the ladder's accumulator can be the identity
+        or ± the base point for points of small order or scalars beyond the order) by the caller's adder_check"""
+        fn = fr
+        pts = [i for i, a in enumerate(args) if isinstance(a, GroupSym)]
+        if len(pts) != 2 or any(isinstance(v, GroupSym) for v in kwargs.values()):
+            return NotImplemented
+        extra = tuple((i, a) for i, a in enumerate(args) if i not in pts)
+        if any(is_symv(a) for _i, a in extra) or any(is_symv(v) for v in kwargs.values()):
+            return NotImplemented
+        key = (fn.qualname, extra, tuple(sorted(kwargs.items())))
+        if key not in adders:
+            if adder_check is None:
+                raise AnalysisError(f"{it.where(node)}: {fn.qualname} applied to two points inside the ladder (no group-law check available)")
+            adders[key] = adder_check(fn, pts, dict(extra), dict(kwargs))
+            okA, detA = adders[key]
+            results.append((f"{fn.qualname}({', '.join(f'{k}={v!r}' for k, v in kwargs.items())}) used as point addition at "
+                            f"{it.where(node)} is the group law on every stratum", okA, detA))
+        return args[pts[0]].plus(args[pts[1]])
+    def s_neg(it, fr, args, kwargs, node):
+        g = classify_point(args[0])
+        if g is None:
+            raise AnalysisError(f"{it.where(node)}: neg of a non-group value")
+        return g.times(Poly.const(-1))
     summ = dict(summaries or {})
     summ[f.qualname] = s_self
     summ[double_q] = s_double
     summ[add_q] = s_add
+    if add_q and add_q.rsplit(".", 1)[-1] == "add":
+        summ.setdefault(add_q.rsplit(".", 1)[0] + ".neg", s_neg)      # the module's point negation (checked by the curve-law rules)
+    summ["*"] = s_other
     pt = GroupSym.base("P")
 
     def run(it):
         return it.call_func(f, [pt, n], {})
     ladder_notes = []
-    paths = enumerate_paths(world, run, summaries=summ, loop_hooks={"*": lambda it, st, seq, fr: _ladder_for(it, st, seq, fr, n, ladder_notes)},
-                            while_hooks={f.qualname: lambda it, st, fr: _ladder_while(it, st, fr, n, ladder_notes)})
+    paths = enumerate_paths(world, run, summaries=summ, loop_hooks={"*": lambda it, st, seq, fr: _ladder_for(it, st, seq, fr, n, ladder_notes, order)},
+                            while_hooks={"*": lambda it, st, fr: _ladder_while(it, st, fr, n, ladder_notes)})
     for key, ok, det in ladder_notes:
         if (key, ok, det) not in results:
             results.append((key, ok, det))
@@ -289,25 +325,54 @@ def _bit_facts(it, x, b):
             it.facts[atom] = ((b == val) == pol)
 
 
-def _ladder_for(it, st, seq, fr, n, notes):
+def _ladder_for(it, st, seq, fr, n, notes, order=None):
     """left-to-right binary ladder:  for i in range(n.bit_length() - s, -1, -1): R = 2R [+ P if bit i of n]
     invariant at the loop head: R = (n >> (i+1))·P.  Initially i+1 = bit_length(n) - s + 1."""
     import ast as _ast
     from .interp import _assigned_names, _Break, _Continue
     where = it.where(st)
-    src = getattr(seq, "src", None)
-    if not (isinstance(src, tuple) and len(src) == 4 and src[0] == "range" and src[2] == -1 and src[3] == -1
-            and isinstance(st.target, _ast.Name)):
-        return NotImplemented
-    start = src[1]
-    bl = Term("bit_length", (n,), "int")
-    s_off = None
-    for cand in (1, 2):
-        if start is t_arith_sub(bl, cand):
-            s_off = cand
-    if s_off is None:
-        notes.append((f"ladder {where}", False, f"loop starts at bit {show(start)}; expected bit_length(n) − 1 or − 2"))
-        return NotImplemented
+    from .builtins_model import BinDigits
+    chars = isinstance(seq, BinDigits)
+
+    def give_up(msg):
+        """a loop over the binary digits of the scalar that does not fit the schema: reported, its results marked unverified"""
+        notes.append((f"ladder {where}", False, msg))
+        for nm in sorted(_assigned_names(st.body)):
+            if nm in fr.env and _coef(fr.env[nm]) is not None:
+                fr.env[nm] = GroupSym({"P": Poly.var("unverified_ladder")})
+        if isinstance(st.target, _ast.Name):
+            fr.env[st.target.id] = Term("after_loop", (where, st.target.id), "int")
+        return None
+    if chars:
+        # for bit in bin(n)[k:] — the binary digits of n as characters, most significant first ('0b' + digits for n >= 0):
+        # k = 2 walks every digit (like bit_length − 1 downto 0), k = 3 skips the leading 1 (like bit_length − 2 downto 0)
+        if seq.order != "msb":
+            raise AnalysisError(f"{where}: loop over the binary digits least significant first: outside the ladder schemas (undecided)")
+        n_cands = [n] + ([Term("mod", (n, order), "int")] if order is not None else [])
+        for nn in n_cands:
+            if seq.n is nn:
+                n = nn
+        if seq.n is not n or seq.start not in (2, 3) or seq.stop is not None or not isinstance(st.target, _ast.Name):
+            return give_up(f"loop over the digits of {show(seq.n)} from position {seq.start} not recognised")
+        s_off = seq.start - 1
+    else:
+        src = getattr(seq, "src", None)
+        if not (isinstance(src, tuple) and len(src) == 4 and src[0] == "range" and src[2] == -1 and src[3] == -1
+                and isinstance(st.target, _ast.Name)):
+            return NotImplemented
+        start = src[1]
+        # the scalar the loop walks: n itself, or n reduced modulo the group order (same multiple of P, known to lie in [0, N−1])
+        n0 = n
+        cands = [n] + ([Term("mod", (n, order), "int")] if order is not None else [])
+        s_off = None
+        for nn in cands:
+            bl = Term("bit_length", (nn,), "int")
+            for cand in (1, 2):
+                if start is t_arith_sub(bl, cand):
+                    s_off, n = cand, nn
+        if s_off is None:
+            notes.append((f"ladder {where}", False, f"loop starts at bit {show(start)}; expected bit_length(n) − 1 or − 2"))
+            return NotImplemented
     carried = [nm for nm in sorted(_assigned_names(st.body)) if nm in fr.env and nm != st.target.id]
     pts = [nm for nm in carried if _coef(fr.env[nm]) is not None]
     if len(carried) != 1 or len(pts) != 1:
@@ -316,10 +381,13 @@ def _ladder_for(it, st, seq, fr, n, notes):
     R = pts[0]
     k0 = _coef(fr.env[R])
     flo, fhi, fholes, _ = interval_of_facts(list(it.facts.items()), n)
+    if isinstance(n, Term) and n.op == "mod" and isinstance(n.args[1], int) and n.args[1] > 0:
+        flo = max(flo, 0)                 # a residue
     while flo in fholes:
         flo += 1
     # n >> (bit_length(n) - 1) = 1 for n >= 1;  n >> bit_length(n) = 0 for n >= 0
     want0, need = (Poly.const(1), 1) if s_off == 2 else (Poly.const(0), 0)
+    # (bin() of a negative n is '-0b…': the slice would start inside the prefix — n >= 0 is needed in the character form too)
     init_ok = (k0 - want0).is_zero() and flo >= need
     notes.append((f"ladder {where} invariant R = (n >> (i+1))·P holds initially", init_ok,
                   f"accumulator starts at [{k0!r}]·P, first bit index bit_length(n) − {s_off}; lower bound of n on entry: {flo}"
@@ -333,7 +401,7 @@ def _ladder_for(it, st, seq, fr, n, notes):
         fr.env.update(saved)
         it.facts.clear()
         it.facts.update(sfacts)
-        fr.env[st.target.id] = i
+        fr.env[st.target.id] = (str(b) if seq.kind == "char" else b) if chars else i
         fr.env[R] = GroupSym({"P": Poly.var("K")})
         bit = t_arith_and(Term("rshift", (n, i), "int"), 1)
         _bit_facts(it, bit, b)
@@ -361,6 +429,9 @@ def _ladder_while(it, st, fr, n, notes):
     from .interp import _assigned_names, _Break, _Continue
     where = it.where(st)
     names = sorted(nm for nm in _assigned_names(st.body) if nm in fr.env)
+    peel = _peel_while(it, st, fr, names, notes, where)
+    if peel is not NotImplemented:
+        return peel
     pts = [nm for nm in names if _coef(fr.env[nm]) is not None]
     ints = [nm for nm in names if nm not in pts]
     if len(pts) != 2 or len(ints) != 1:
@@ -389,8 +460,9 @@ def _ladder_while(it, st, fr, n, notes):
             it.facts.update(sfacts)
             cur = var("cur", "int")
             fr.env[m_name] = cur
-            fr.env[R] = GroupSym({"P": Poly.var("KR")})
-            fr.env[A] = GroupSym({"P": Poly.var("KA")})
+            gR, gA = GroupSym({"P": Poly.var("KR")}), GroupSym({"P": Poly.var("KA")})
+            fr.env[R] = gR
+            fr.env[A] = gA
             _bit_facts(it, t_arith_and(cur, 1), b)
             _bit_facts(it, Term("mod", (cur, 2), "int"), b)
             try:
@@ -399,6 +471,12 @@ def _ladder_while(it, st, fr, n, notes):
                 pres = False
                 continue
             kr, ka, m1 = _coef(fr.env.get(R)), _coef(fr.env.get(A)), fr.env.get(m_name)
+            # a path that tested "accumulator / addend is the identity" and found it true: that multiple of P is O
+            zsub = {}
+            for g_, kn in ((gR, "KR"), (gA, "KA")):
+                if any(isinstance(a_, Term) and a_.op == "coord_is_zero" and a_.args[0] == id(g_) and t_ is True
+                       for a_, t_ in it.facts.items()):
+                    zsub[kn] = Poly.const(0)
             halves = isinstance(m1, Term) and ((m1.op == "rshift" and m1.args == (cur, 1)) or (m1.op == "floordiv" and m1.args == (cur, 2)))
             if kr is None or ka is None or not halves:
                 pres = False
@@ -406,7 +484,7 @@ def _ladder_while(it, st, fr, n, notes):
             h = Poly.var("hh")
             before = Poly.var("KR") + (Poly.const(2) * h + Poly.const(b)) * Poly.var("KA")
             after = kr + h * ka
-            if not (before - after).is_zero():
+            if not (before - after).subs(zsub).is_zero():
                 pres = False
         if init and pres:
             verdict = (R, A)
@@ -422,6 +500,69 @@ def _ladder_while(it, st, fr, n, notes):
     R = verdict[0] if verdict else pts[0]
     fr.env[R] = GroupSym({"P": Poly.var("n")}) if (verdict and term_ok) else GroupSym({"P": Poly.var("unverified_ladder")})
     fr.env[m_name] = 0
+    return None
+
+
+def _peel_while(it, st, fr, names, notes, where):
+    """while m != 1 (m > 1):  L.append(m % 2) ; m //= 2   — peels the binary digits of m below its leading one into the list L,
+    least significant first (needs m >= 1 on entry).  Afterwards L stands for those digits and m is 1."""
+    import ast as _ast
+    from .interp import _Break, _Continue
+    from .builtins_model import BinDigits
+    lists = [nm for nm in fr.env if isinstance(fr.env[nm], list) and not fr.env[nm]
+             and any(isinstance(x, _ast.Call) and isinstance(x.func, _ast.Attribute) and x.func.attr == "append"
+                     and isinstance(x.func.value, _ast.Name) and x.func.value.id == nm for s_ in st.body for x in _ast.walk(s_))]
+    ints = [nm for nm in names if isinstance(fr.env[nm], (Term, int)) and not isinstance(fr.env[nm], bool)]
+    if len(lists) != 1:
+        return NotImplemented
+    L = lists[0]
+    test = _ast.unparse(st.test).replace(" ", "")
+    m_name = next((nm for nm in ints if test in (f"{nm}!=1", f"{nm}>1", f"1<{nm}", f"1!={nm}", f"{nm}>=2")), None)
+    if m_name is None:
+        return NotImplemented
+    m0 = fr.env[m_name]
+    saved = dict(fr.env)
+    sfacts = dict(it.facts)
+    ok = True
+    for b in (0, 1):
+        fr.env.clear()
+        fr.env.update(saved)
+        it.facts.clear()
+        it.facts.update(sfacts)
+        cur = var("cur", "int")
+        fr.env[m_name] = cur
+        fr.env[L] = []
+        _bit_facts(it, t_arith_and(cur, 1), b)
+        _bit_facts(it, Term("mod", (cur, 2), "int"), b)
+        try:
+            it.exec_block(st.body, fr)
+        except (_Break, _Continue):
+            ok = False
+            continue
+        got, m1 = fr.env.get(L), fr.env.get(m_name)
+        halves = isinstance(m1, Term) and ((m1.op == "rshift" and m1.args == (cur, 1)) or (m1.op == "floordiv" and m1.args == (cur, 2)))
+        digit = isinstance(got, list) and len(got) == 1 and (
+            got[0] == b or (isinstance(got[0], Term) and got[0] in (t_arith_and(cur, 1), Term("mod", (cur, 2), "int"))))
+        if not (halves and digit):
+            ok = False
+    fr.env.clear()
+    fr.env.update(saved)
+    it.facts.clear()
+    it.facts.update(sfacts)
+    lo, _hi, holes, _ = interval_of_facts(list(it.facts.items()), m0) if isinstance(m0, Term) else (m0, m0, [], [])
+    if isinstance(m0, Term) and m0.op == "mod" and isinstance(m0.args[1], int) and m0.args[1] > 0:
+        lo = max(lo, 0)
+    while lo in holes:
+        lo += 1
+    pos = lo >= 1
+    notes.append((f"digit-peeling loop {where}: each round appends m % 2 and halves m", ok, ""))
+    notes.append((f"digit-peeling loop {where} terminates with m = 1: m ≥ 1 on entry", pos,
+                  f"lower bound of the scalar on entry: {lo}" + ("" if pos else " (0 or a negative scalar never reaches 1)")))
+    if not (ok and pos) or not isinstance(m0, Term):
+        fr.env[L] = Term("unverified_digits", (where,), "seq")
+    else:
+        fr.env[L] = BinDigits(m0, 3, None, "int", "lsb")
+    fr.env[m_name] = 1
     return None
 
 
